@@ -760,6 +760,7 @@ fn generate(rng: &mut Rng, n: u64, tier: &str, emit: &mut dyn FnMut(Vec<String>)
             emit(mk("complete_multipart_upload", prev, fr(&[None, Some(b)]), "none".into(), hasmeta, true));
             emit(mk("complete_multipart_upload", prev, fr(&[Some(a)]), "destdir".into(), hasmeta, false));
             emit(mk("complete_multipart_upload", prev, fr(&[Some(a)]), "metafail".into(), hasmeta, false));
+            emit(mk("complete_multipart_upload", prev, fr(&[Some(a)]), "infofail".into(), hasmeta, false));
         }
         let maxp = if thorough { 20 } else { 14 };
         for p in 1..=maxp {
